@@ -113,6 +113,7 @@ func runC19(c *eng.Ctx) {
 	if !ok {
 		return
 	}
+	c19AllFuncs, c19Baseline = sh.funcs, c.P.Baseline
 	c19R1(r1, sh)
 	c19R2(c, r2, sh)
 }
@@ -926,41 +927,38 @@ func c19CheckRunner(r *eng.RuleCtx, f *eng.ShCmd) string {
 		}
 		mode, v = "words", loop.Name
 	}
-	// loop body: exactly `if <defined V> ; then <run V>; return $?; fi`
-	var ifc *eng.ShCmd
-	if len(loop.Body.Items) == 1 && len(loop.Body.Items[0].Ops) == 0 {
-		ifc = soleCmd(loop.Body.Items[0])
-	}
-	if ifc == nil || ifc.Kind != "if" || len(ifc.Elifs) > 0 || ifc.Else != nil || len(ifc.Redirs) > 0 {
-		r.Unknown(c19Runner+": loop body", loop.Pos, "the loop body is not a single `if .. then .. fi` without elif/else")
-		return mode
-	}
+	// loop body, by paths: whatever its shape, for a candidate that is defined the body runs it (guarded by a
+	// definedness test) and returns its status; for a candidate that is empty or not defined it runs nothing and goes
+	// on with the next one
 	const cTest = c19Runner + ": definedness test guards the call"
-	hasTest, okCond := false, len(ifc.Cond.Items) == 1
-	if !okCond {
-		r.Unknown(cTest, ifc.Pos, "the condition is a command list, not one and-list")
-	} else {
-		ao := ifc.Cond.Items[0]
-		for _, op := range ao.Ops {
-			if op != "&&" {
-				r.Bad(cTest, ifc.Pos, "the condition is not a conjunction (`"+op+"`): a candidate can be run although it is not defined")
-				okCond = false
-			}
-		}
-		for _, pl := range ao.Pipes {
-			if !okCond {
-				break
-			}
-			if pl.Neg || len(pl.Cmds) != 1 {
-				r.Bad(cTest, ifc.Pos, "negated or piped test in the condition")
-				okCond = false
-				break
-			}
-			t := pl.Cmds[0]
-			n := t.CmdName()
+	const cCall = c19Runner + ": the first defined candidate is run"
+	const cRet = c19Runner + ": returns the status of that handler"
+	isV := func(w symVal) bool { return isExpr(w, "${"+v+"}") }
+	// classify: "nonempty" / "empty" (true when the candidate is (not) the empty string), "defined", or ""
+	classify := func(ev *shEvent) string {
+		t := ev.Cmd
+		W := ev.Words
+		switch t.Kind {
+		case "cond":
+			op := func(i int) string { s, _ := shLitOf(W[i]); return s }
 			switch {
-			case t.Kind == "cond" && len(t.Words) == 2 && shRender(t.Words[0]) == "-n" && refVar(t.Words[1], v):
-			case t.Kind == "simple" && len(t.Assigns) == 0 && (n == "type" || n == "declare" || n == "command") && len(t.Words) >= 2 && refVar(t.Words[len(t.Words)-1], v):
+			case len(W) == 1 && isV(W[0]):
+				return "nonempty"
+			case len(W) == 2 && isV(W[1]) && op(0) == "-n":
+				return "nonempty"
+			case len(W) == 2 && isV(W[1]) && op(0) == "-z":
+				return "empty"
+			case len(W) == 3 && (isV(W[0]) && len(W[2]) == 0 || isV(W[2]) && len(W[0]) == 0):
+				switch op(1) {
+				case "==", "=":
+					return "empty"
+				case "!=":
+					return "nonempty"
+				}
+			}
+		case "simple":
+			n := t.CmdName()
+			if len(t.Assigns) == 0 && (n == "type" || n == "declare" || n == "command") && len(W) >= 2 && isV(W[len(W)-1]) {
 				good := true
 				for _, w := range t.Words[1 : len(t.Words)-1] {
 					s, ok := w.Lit()
@@ -972,44 +970,141 @@ func c19CheckRunner(r *eng.RuleCtx, f *eng.ShCmd) string {
 				if n == "declare" || n == "command" {
 					good = good && len(t.Words) == 3
 				}
-				if !good {
-					r.Unknown(cTest, t.Pos, "unsupported definedness test `"+shRender(t)+"`")
-					okCond = false
+				if good {
+					return "defined"
 				}
-				hasTest = true
+			}
+		}
+		return ""
+	}
+	isCall := func(ev *shEvent) bool {
+		return ev.Kind == "run" && ev.Cmd.Kind == "simple" && len(ev.Cmd.Assigns) == 0 && len(ev.Words) >= 1 && isV(ev.Words[0]) && classify(ev) == ""
+	}
+	scenario := func(nonEmpty, defined bool) ([]shPath, *shFlow) {
+		fl := &shFlow{funcs: shFuncsOf(f), stepInto: shStepInto, oracle: func(ev *shEvent) shStatus {
+			b := false
+			switch classify(ev) {
+			case "nonempty":
+				b = nonEmpty
+			case "empty":
+				b = !nonEmpty
+			case "defined":
+				b = defined
 			default:
-				r.Unknown(cTest, t.Pos, "unrecognised conjunct `"+shRender(t)+"` in the condition: it may exclude a defined candidate")
-				okCond = false
+				return 0
 			}
+			if b {
+				return 1
+			}
+			return -1
+		}}
+		e2 := map[string]symVal{}
+		for k, x := range env {
+			e2[k] = x
 		}
-		if okCond || !hasTest {
-			r.Check(hasTest, cTest, ifc.Pos, "the call is guarded by `type \"${"+v+"}\"`", "the condition does not test that the candidate ${"+v+"} is defined: the first candidate is run whether it exists or not (exit 127) and the fallbacks are never reached")
-		}
+		delete(e2, v)
+		return fl.Paths(loop.Body, e2), fl
 	}
-	const cCall = c19Runner + ": the first defined candidate is run"
-	const cRet = c19Runner + ": returns the status of that handler"
-	items := ifc.Body.Items
+	defPaths, fl := scenario(true, true)
+	for i, pm := range fl.probs {
+		r.Unknown(c19Runner+": loop body", fl.ppos[i], "the loop body contains a construct the path enumeration does not follow (fail closed): "+pm)
+	}
+	if len(fl.probs) > 0 {
+		return mode
+	}
+	testMsg, callMsg, retMsg := "", "", ""
+	var undecided *shEvent
 	called := false
-	if len(items) >= 1 {
-		if call := soleCmd(items[0]); call != nil && len(items[0].Ops) == 0 {
-			x := call
-			if x.Kind == "subshell" && len(x.Body.Items) == 1 && len(x.Body.Items[0].Ops) == 0 {
-				x = soleCmd(x.Body.Items[0])
+	for pi := range defPaths {
+		pt := &defPaths[pi]
+		ci := -1
+		for i := range pt.Events {
+			if isCall(&pt.Events[i]) {
+				ci = i
+				break
 			}
-			called = x != nil && x.Kind == "simple" && len(x.Assigns) == 0 && len(x.Words) >= 1 && refVar(x.Words[0], v)
+		}
+		if ci < 0 {
+			for i := range pt.Events {
+				if ev := &pt.Events[i]; ev.Tested && !ev.Known && undecided == nil {
+					undecided = ev
+				}
+			}
+			if undecided == nil && callMsg == "" {
+				callMsg = "a candidate that is defined is not run: a path through the loop body does not call ${" + v + "}"
+			}
+			continue
+		}
+		called = true
+		guarded := false
+		for i := 0; i < ci; i++ {
+			if ev := &pt.Events[i]; ev.Tested && ev.Known && ev.OK && classify(ev) == "defined" {
+				guarded = true
+			}
+		}
+		if !guarded && testMsg == "" {
+			testMsg = "the call of ${" + v + "} is not guarded by a test that the candidate is defined: the first candidate is run whether it exists or not (exit 127) and the fallbacks are never reached"
+		}
+		// after the call: `return $?` (or the status saved at once and returned later)
+		rest := pt.Events[ci+1:]
+		carrier := "?"
+		okRet := pt.Out == "return" || pt.Out == "exit"
+		detail := "no `return $?` follows the handler call: the loop goes on and runs the next defined candidate as well"
+		if okRet {
+			if len(rest) > 0 {
+				first := &rest[0]
+				if first.Kind == "assign" && len(first.Names) == 1 && isExpr(first.Vals[0], "${?}") {
+					carrier = first.Names[0]
+					for k := 1; k < len(rest); k++ {
+						for _, nm := range rest[k].Names {
+							if nm == carrier {
+								okRet = false
+							}
+						}
+					}
+				} else {
+					okRet = false
+				}
+			}
+			switch {
+			case pt.OutArg == nil:
+				okRet = okRet && len(rest) == 0
+			default:
+				okRet = okRet && isExpr(pt.OutArg, "${"+carrier+"}")
+			}
+			if !okRet {
+				detail = "what follows the handler call is not `return $?` (or the status saved at once and returned): " + shRender(pt.OutCmd)
+			}
+		}
+		if !okRet && retMsg == "" {
+			retMsg = detail
 		}
 	}
-	r.Check(called, cCall, ifc.Pos, "`${"+v+"}` (in a subshell) is the first command of the then-branch", "the then-branch does not start with a plain call of the tested candidate ${"+v+"}")
-	retOK, detail := false, "no command follows the handler call: the loop goes on and runs the next defined candidate as well"
-	if len(items) >= 2 {
-		ret := soleCmd(items[1])
-		detail = "the command after the handler call is not `return $?`: " + shRenderList(&eng.ShList{Items: items[1:2]})
-		if ret != nil && len(items[1].Ops) == 0 && ret.Kind == "simple" && len(ret.Assigns) == 0 && (ret.CmdName() == "return" || ret.CmdName() == "exit") {
-			retOK = len(ret.Words) == 1 || len(ret.Words) == 2 && refVar(ret.Words[1], "?")
+	for _, sc := range [][2]bool{{true, false}, {false, false}} {
+		paths, _ := scenario(sc[0], sc[1])
+		for pi := range paths {
+			pt := &paths[pi]
+			for i := range pt.Events {
+				if isCall(&pt.Events[i]) && testMsg == "" {
+					testMsg = "a candidate that is empty or not defined can still be called: the definedness test does not guard the call of ${" + v + "}"
+				}
+			}
+			if pt.Out != "" && pt.Out != "continue" && callMsg == "" {
+				callMsg = "a candidate that is not defined ends the search (`" + shRender(pt.OutCmd) + "`): the fallbacks after it are never tried"
+			}
 		}
 	}
+	if undecided != nil && testMsg == "" {
+		r.Unknown(cTest, undecided.Cmd.Pos, "unrecognised test `"+shRender(undecided.Cmd)+"` on the way to the call: it may exclude a defined candidate")
+	} else {
+		r.Check(testMsg == "", cTest, loop.Pos, "the call is guarded by a definedness test of ${"+v+"}", testMsg)
+	}
+	if !called && callMsg == "" {
+		callMsg = "the loop body never calls the tested candidate ${" + v + "}"
+	}
+	r.Check(callMsg == "", cCall, loop.Pos, "`${"+v+"}` is run for the first candidate that is defined, undefined ones are skipped", callMsg)
 	if called {
-		r.Check(retOK, cRet, ifc.Pos, "`return $?` immediately follows the handler call: exactly one handler runs and its status is the result", detail)
+		r.Check(retMsg == "", cRet, loop.Pos, "`return $?` immediately follows the handler call: exactly one handler runs and its status is the result", retMsg)
 	}
 	// after the loop
 	const cNone = c19Runner + ": non-zero when no candidate is defined"
@@ -1040,9 +1135,17 @@ func c19CheckRunner(r *eng.RuleCtx, f *eng.ShCmd) string {
 	return mode
 }
 
+// shFuncsOf / shStepInto: the functions of the three files, and which of them the path enumeration steps into
+// (those that the reference tree does not have: a helper extracted from one of the dispatch functions).
+var c19AllFuncs map[string]*eng.ShCmd
+var c19Baseline map[string]bool
+
+func shFuncsOf(_ *eng.ShCmd) map[string]*eng.ShCmd { return c19AllFuncs }
+func shStepInto(name string) bool                  { return c19Baseline != nil && !c19Baseline["sh:"+name] }
+
 type c19table struct {
 	keys  []string
-	rows  map[string][]*eng.ShWord
+	vals  map[string][]symVal
 	names map[string][]string
 	pos   map[string]token.Pos
 	sels  map[int]string // nesting level -> jq filter of the case subject
@@ -1054,107 +1157,140 @@ func (tb *c19table) problem(pos token.Pos, msg string) {
 	tb.probs, tb.ppos = append(tb.probs, msg), append(tb.ppos, pos)
 }
 
-func (tb *c19table) collect(l *eng.ShList, key string, level int, sel map[string]string) {
-	for _, ao := range l.Items {
-		c := soleCmd(ao)
-		if c == nil || len(ao.Ops) > 0 {
-			tb.problem(token.NoPos, "and-or list, pipeline or background command: "+shRenderList(&eng.ShList{Items: []*eng.ShAndOr{ao}}))
+// collect reads the table off the paths through the producer: the key of a path is made of the decisions taken on
+// it (the binding-name test that succeeded, the case patterns entered, outermost first), its row is the list of names
+// echoed on it. A path that echoes nothing contributes nothing.
+func (tb *c19table) collect(body *eng.ShList, env map[string]symVal) {
+	fieldOf := func(v symVal) (string, bool) {
+		if len(v) == 1 && strings.HasPrefix(v[0].expr, "${.") && strings.HasSuffix(v[0].expr, "}") {
+			return v[0].expr[2 : len(v[0].expr)-1], true
+		}
+		return "", false
+	}
+	fl := &shFlow{funcs: c19AllFuncs, stepInto: shStepInto,
+		// a variable that holds one field of the current context is named by that field: ${.type}
+		value: func(a *eng.ShAssign, _ map[string]symVal) (symVal, bool) {
+			if flt, ok := jqFilter(a.Value, "context::jq"); ok && !a.Append {
+				return symVal{{expr: "${" + flt + "}"}}, true
+			}
+			return nil, false
+		}}
+	paths := fl.Paths(body, env)
+	for i, pm := range fl.probs {
+		tb.problem(fl.ppos[i], pm)
+	}
+	type row struct {
+		names []string
+		vals  []symVal
+	}
+	seen := map[string]row{}
+	for pi := range paths {
+		pt := &paths[pi]
+		var keyParts []string
+		var names []string
+		var vals []symVal
+		var first token.Pos
+		level := 0
+		bad := false
+		for ei := range pt.Events {
+			ev := &pt.Events[ei]
+			switch ev.Kind {
+			case "case":
+				field, ok := jqFilter(ev.SubjectRaw, "context::jq")
+				if !ok {
+					field, ok = fieldOf(ev.Subject)
+				}
+				if !ok {
+					tb.problem(ev.Cmd.Pos, "the case subject "+shRender(ev.SubjectRaw)+" is not (a variable holding) one field of the current context")
+					bad = true
+					continue
+				}
+				if ev.Pattern == "" {
+					continue
+				}
+				if old, has := tb.sels[level]; has && old != field {
+					tb.problem(ev.Cmd.Pos, "two different selectors at the same nesting level: "+old+" and "+field)
+				}
+				tb.sels[level] = field
+				level++
+				keyParts = append(keyParts, ev.Pattern)
+			case "assign":
+				// VAR=$(context::jq ...) used as a condition: the arm is entered when the field exists
+				if ev.Tested && len(ev.Names) == 1 {
+					if _, isJq := jqFilter(ev.Raw[0], "context::jq"); !isJq {
+						tb.problem(ev.Cmd.Pos, "unrecognised condition: "+shRender(ev.Cmd))
+						bad = true
+					}
+				}
+			case "run":
+				t := ev.Cmd
+				switch {
+				case t.Kind == "cond" && ev.Tested:
+					op, _ := "", false
+					if len(ev.Words) == 3 {
+						op, _ = shLitOf(ev.Words[1])
+					}
+					lit, isLit := "", false
+					var subj symVal
+					if len(ev.Words) == 3 {
+						lit, isLit = shLitOf(ev.Words[2])
+						subj = ev.Words[0]
+						if !isLit || len(ev.Words[2]) == 0 {
+							lit, isLit = shLitOf(ev.Words[0])
+							subj = ev.Words[2]
+						}
+					}
+					if (op != "==" && op != "=") || !isLit || len(subj) != 1 || subj[0].expr == "" || level > 0 || len(keyParts) > 0 {
+						tb.problem(t.Pos, "unrecognised test "+shRender(t))
+						bad = true
+						continue
+					}
+					if ev.OK {
+						k := strings.TrimSuffix(strings.TrimPrefix(subj[0].expr, "${"), "}") + "=" + lit
+						if fld, isF := fieldOf(subj); isF && fld == ".binding" {
+							k = "binding=" + lit
+						}
+						keyParts = append(keyParts, k)
+					}
+				case t.Kind == "simple" && t.CmdName() == "echo" && len(t.Assigns) == 0 && len(t.Redirs) == 0 && len(ev.Words) == 2 && !ev.Sub:
+					if first == token.NoPos {
+						first = t.Pos
+					}
+					var sb strings.Builder
+					for _, a := range ev.Words[1] {
+						sb.WriteString(a.lit + a.expr)
+					}
+					names = append(names, sb.String())
+					vals = append(vals, ev.Words[1])
+				default:
+					tb.problem(t.Pos, "unrecognised command `"+shRender(t)+"` (expected: `echo <one name>` inside an arm, or an assignment)")
+					bad = true
+				}
+			}
+		}
+		if pt.Out != "" && pt.Out != "return" {
+			tb.problem(pt.OutCmd.Pos, "`"+shRender(pt.OutCmd)+"` in the producer")
+			bad = true
+		}
+		if bad || len(names) == 0 {
 			continue
 		}
-		switch c.Kind {
-		case "simple":
-			switch {
-			case len(c.Words) == 0 || c19Decl[c.CmdName()] && len(c.Redirs) == 0:
-				as := c.Assigns
-				for _, w := range c.Words[min(1, len(c.Words)):] {
-					if a := eng.ShSplitAssign(w); a != nil {
-						as = append(as, a)
-					} else if s, ok := w.Lit(); ok {
-						delete(sel, s) // `local name`
-					} else {
-						tb.problem(c.Pos, "computed argument of `"+c.CmdName()+"`")
-					}
-				}
-				for _, a := range as {
-					sel[a.Name], _ = jqFilter(a.Value, "context::jq")
-				}
-			case c.CmdName() == "echo" && len(c.Assigns) == 0 && len(c.Redirs) == 0 && len(c.Words) == 2 && key != "":
-				if _, seen := tb.rows[key]; !seen {
-					tb.keys = append(tb.keys, key)
-					tb.pos[key] = c.Pos
-				}
-				tb.rows[key] = append(tb.rows[key], c.Words[1])
-				tb.names[key] = append(tb.names[key], c19Norm(c.Words[1], sel))
-			default:
-				tb.problem(c.Pos, "unrecognised command `"+shRender(c)+"` (expected: `echo <one name>` inside an arm, or an assignment)")
-			}
-		case "if":
-			branches := append([]*eng.ShCmd{c}, c.Elifs...)
-			for _, b := range branches {
-				var t *eng.ShCmd
-				if len(b.Cond.Items) == 1 && len(b.Cond.Items[0].Ops) == 0 {
-					t = soleCmd(b.Cond.Items[0])
-				}
-				switch {
-				case t != nil && t.Kind == "simple" && len(t.Words) == 0 && len(t.Assigns) == 1:
-					s2 := copySel(sel)
-					s2[t.Assigns[0].Name], _ = jqFilter(t.Assigns[0].Value, "context::jq")
-					tb.collect(b.Body, key, level, s2)
-				case t != nil && t.Kind == "cond" && len(t.Words) == 3 && (shRender(t.Words[1]) == "==" || shRender(t.Words[1]) == "=") && key == "":
-					lit, ok := t.Words[2].Lit()
-					name := ""
-					if len(t.Words[0].Parts) == 1 && t.Words[0].Parts[0].Kind == eng.ShDQ && len(t.Words[0].Parts[0].Parts) == 1 {
-						name = t.Words[0].Parts[0].Parts[0].Name
-					}
-					if !ok || name == "" || !refVar(t.Words[0], name) {
-						tb.problem(t.Pos, "unrecognised test "+shRender(t))
-						continue
-					}
-					k := name + "=" + lit
-					if name == c19Binding {
-						k = "binding=" + lit
-					}
-					tb.collect(b.Body, k, level, copySel(sel))
-				default:
-					tb.problem(b.Pos, "unrecognised condition: "+shRender(b.Cond))
-				}
-			}
-			if c.Else != nil {
-				tb.problem(c.Pos, "`else` branch in the producer")
-			}
-		case "case":
-			field, ok := "", false
-			if p := c.Words[0].Parts; len(p) == 1 && p[0].Kind == eng.ShDQ && len(p[0].Parts) == 1 && p[0].Parts[0].Kind == eng.ShParam && refVar(c.Words[0], p[0].Parts[0].Name) {
-				field = sel[p[0].Parts[0].Name]
-				ok = field != ""
-			} else {
-				field, ok = jqFilter(c.Words[0], "context::jq")
-			}
-			if !ok {
-				tb.problem(c.Pos, "the case subject "+shRender(c.Words[0])+" is not (a variable holding) one field of the current context")
-				continue
-			}
-			if old, seen := tb.sels[level]; seen && old != field {
-				tb.problem(c.Pos, "two different selectors at the same nesting level: "+old+" and "+field)
-			}
-			tb.sels[level] = field
-			for _, arm := range c.Arms {
-				for _, pw := range arm.Patterns {
-					lit, ok := pw.Lit()
-					if !ok {
-						tb.problem(arm.Pos, "computed case pattern "+shRender(pw))
-						continue
-					}
-					k := lit
-					if key != "" {
-						k = key + "/" + lit
-					}
-					tb.collect(arm.Body, k, level+1, copySel(sel))
-				}
-			}
-		default:
-			tb.problem(c.Pos, "unrecognised compound command `"+c.Kind+"`")
+		key := strings.Join(keyParts, "/")
+		if key == "" {
+			tb.problem(first, "names are echoed on a path that is not selected by the binding name or the context type: "+strings.Join(names, ", "))
+			continue
 		}
+		if old, has := seen[key]; has {
+			if strings.Join(old.names, "\n") != strings.Join(names, "\n") {
+				tb.problem(first, "two paths of the producer give different candidates for "+key+": "+strings.Join(old.names, ", ")+" / "+strings.Join(names, ", "))
+			}
+			continue
+		}
+		seen[key] = row{names, vals}
+		tb.keys = append(tb.keys, key)
+		tb.pos[key] = first
+		tb.vals[key] = vals
+		tb.names[key] = names
 	}
 }
 
@@ -1167,9 +1303,9 @@ func copySel(m map[string]string) map[string]string {
 }
 
 // specificity = number of `::` separators in the literal skeleton of the name (expansions are opaque).
-func c19Specificity(w *eng.ShWord) int {
+func c19Specificity(w symVal) int {
 	n := 0
-	for _, a := range symEval(w.Parts, nil) {
+	for _, a := range w {
 		if a.expr == "" {
 			n += strings.Count(a.lit, "::")
 		}
@@ -1194,9 +1330,9 @@ func c19Norm(w *eng.ShWord, sel map[string]string) string {
 }
 
 func c19CheckTable(c *eng.Ctx, r *eng.RuleCtx, f *eng.ShCmd) {
-	tb := &c19table{rows: map[string][]*eng.ShWord{}, names: map[string][]string{}, pos: map[string]token.Pos{}, sels: map[int]string{}}
+	tb := &c19table{vals: map[string][]symVal{}, names: map[string][]string{}, pos: map[string]token.Pos{}, sels: map[int]string{}}
 	// the binding name is assigned by hook::run from `.binding` of the selected context (obligation of c19CheckRun)
-	tb.collect(shFuncBody(f), "", 0, map[string]string{c19Binding: ".binding"})
+	tb.collect(shFuncBody(f), map[string]symVal{c19Binding: {{expr: "${.binding}"}}})
 	for i, p := range tb.probs {
 		r.Unknown(c19Producer+": structure", tb.ppos[i], "the producer contains a statement the table extraction does not understand (fail closed): "+p)
 	}
@@ -1204,7 +1340,7 @@ func c19CheckTable(c *eng.Ctx, r *eng.RuleCtx, f *eng.ShCmd) {
 		"the outer case selects on .type of the current context, the nested one on .watchEvent", fmt.Sprintf("the case subjects are not .type / .watchEvent of the current context: %v", tb.sels))
 	table := map[string][]string{}
 	for _, k := range tb.keys {
-		ws := tb.rows[k]
+		ws := tb.vals[k]
 		names := tb.names[k]
 		ordered := true
 		for i, w := range ws {
@@ -1343,40 +1479,44 @@ func c19CheckRun(r *eng.RuleCtx, sh *c19sh, f *eng.ShCmd, mode string) {
 	}
 	r.Check(okLoop, cLoop, loop.Pos, "for "+loop.Name+" in $(seq 0 $((length-1))), length = context::global::jq 'length'", dLoop)
 
-	// loop body, straight-line
+	// loop body, by paths (a helper function that the reference tree does not have is stepped into): on every path
+	// the index is exported, the binding name read, the candidates computed and the runner called, in that order
 	idx := map[string]int{}
 	var runnerArg symVal
-	var runnerAO *eng.ShAndOr
-	lenv := map[string]symVal{}
-	for i, ao := range loop.Body.Items {
-		for _, pl := range ao.Pipes {
-			for _, x := range pl.Cmds {
-				if x.Kind != "simple" {
-					for _, n := range assignedDeep(x) {
-						lenv[n] = symVal{{expr: "<assigned in a compound command>"}}
+	var runnerEv *shEvent
+	fl := &shFlow{funcs: c19AllFuncs, stepInto: shStepInto}
+	paths := fl.Paths(loop.Body, map[string]symVal{})
+	for i, pm := range fl.probs {
+		r.Unknown(c19Run+": loop body", fl.ppos[i], "the loop body contains a construct the path enumeration does not follow (fail closed): "+pm)
+	}
+	if len(paths) != 1 {
+		r.Unknown(c19Run+": loop body", loop.Pos, fmt.Sprintf("the loop body has %d paths: expected a straight-line body (a branch could skip the runner)", len(paths)))
+	}
+	if len(paths) >= 1 {
+		pt := &paths[0]
+		for i := range pt.Events {
+			ev := &pt.Events[i]
+			switch ev.Kind {
+			case "run":
+				if ev.Cmd.Kind == "simple" && ev.Cmd.CmdName() == c19Runner {
+					if _, seen := idx["runner"]; !seen && len(ev.Words) == 2 {
+						idx["runner"], runnerArg, runnerEv = i, ev.Words[1], ev
 					}
-					continue
 				}
-				if x.CmdName() == c19Runner {
-					if _, seen := idx["runner"]; !seen && len(x.Words) == 2 {
-						idx["runner"], runnerArg, runnerAO = i, symEval(x.Words[1].Parts, lenv), ao
-					}
-					continue
-				}
-				exported := x.CmdName() == "export"
-				for _, a := range applyAssigns(x, lenv) {
-					if pc, _ := soleSub(a.Value); pc != nil && pc.CmdName() == c19Producer && len(pc.Words) == 1 {
+			case "assign":
+				for k, name := range ev.Names {
+					if pc, _ := soleSub(ev.Raw[k]); pc != nil && pc.CmdName() == c19Producer && len(pc.Words) == 1 {
 						if _, seen := idx["producer"]; !seen {
 							idx["producer"] = i
 						}
 					}
-					if a.Name == c19Index && exported && refVar(a.Value, loop.Name) {
+					if name == c19Index && ev.Decl == "export" && isExpr(ev.Vals[k], "${"+loop.Name+"}") {
 						idx["index"] = i
-					} else if a.Name == c19Index {
+					} else if name == c19Index {
 						delete(idx, "index")
 					}
-					if a.Name == c19Binding {
-						if flt, ok := jqFilter(a.Value, "context::jq"); ok && (flt == ".binding" || strings.HasPrefix(flt, ".binding ") || strings.HasPrefix(flt, ".binding/")) {
+					if name == c19Binding {
+						if flt, ok := jqFilter(ev.Raw[k], "context::jq"); ok && (flt == ".binding" || strings.HasPrefix(flt, ".binding ") || strings.HasPrefix(flt, ".binding/")) {
 							idx["binding"] = i
 						} else {
 							delete(idx, "binding")
@@ -1422,7 +1562,8 @@ func c19CheckRun(r *eng.RuleCtx, sh *c19sh, f *eng.ShCmd, mode string) {
 	}
 	r.Check(okMain, cMain, loop.Pos, "runner argument = "+runnerArg.String(), dMain)
 	// failure of the runner stops the run
-	plain := len(runnerAO.Pipes) == 1 && !runnerAO.Pipes[0].Neg && len(runnerAO.Pipes[0].Cmds) == 1 && runnerAO.Sep != "&"
+	// the runner's status is not consumed by a condition, `!`, && or ||, and it does not run in a subshell or pipeline
+	plain := runnerEv != nil && !runnerEv.Cond && !runnerEv.Sub && !runnerEv.Tested
 	errexit := false
 	for _, ao := range sh.files[shLib].List.Items {
 		if x := soleCmd(ao); x != nil && x.CmdName() == "set" {
